@@ -37,7 +37,22 @@ func xxhStreamObs(chunks [][]byte) string {
 		}
 		run = append(run, strconv.FormatUint(uint64(b), 10))
 	}
-	return fmt.Sprintf("sum=%d sums=%s oracle_idem=%s", xxhStream(chunks), strings.Join(run, ","), idem)
+	// Reset makes the object new whatever it holds (pending bytes included): the digest asked right after
+	// Reset, with no Write in between, is XXH32 of the empty input (0x02CC5D05), and the object then
+	// hashes the first chunk as a fresh one does
+	reset := "ok"
+	y.Reset()
+	if a := y.Sum32(); a != 0x02CC5D05 {
+		reset = fmt.Sprintf("fail:Sum32-right-after-Reset-is-%d-not-XXH32-of-the-empty-input", a)
+	} else if len(chunks) > 0 {
+		y.Write(chunks[0])
+		var z xxh32.XXHZero
+		z.Write(chunks[0])
+		if y.Sum32() != z.Sum32() {
+			reset = "fail:object-after-Reset-hashes-differently-from-a-new-one"
+		}
+	}
+	return fmt.Sprintf("sum=%d sums=%s oracle_idem=%s oracle_reset=%s", xxhStream(chunks), strings.Join(run, ","), idem, reset)
 }
 
 func chunksField(chunks [][]byte) string {
